@@ -508,6 +508,64 @@ func (p *vStallProxy) Close() {
 	}
 }
 
+// (6) an idle session goes silent right after it was established, or some ping periods later (run with transport.go's
+// durations scaled by VERIF_SCALE)
+func TestVerifC06Silent(t *testing.T) {
+	r := vNewRand(vSeed() + 66)
+	skey, ckey := vGenKey(r), vGenKey(r)
+	afters := []int{0, 3}
+	if vThorough() {
+		afters = []int{0, 0, 1, 3, 5}
+	}
+	for _, a := range afters {
+		vC06SilentIdleSession(r, skey, ckey, a)
+	}
+}
+
+// vC06SilentIdleSession: an idle session (no calls) whose path goes silent `after` ping periods after it became Ready - no
+// error, no reset, the socket stays open; new connections get through. The client must notice by itself (no pong within
+// the read deadline), dial again and be usable again. Durations are those of the scaled transport.
+func vC06SilentIdleSession(r *vRand, skey, ckey vKeyPair, after int) {
+	ls := vStartLibServer(skey, []ed25519.PublicKey{ckey.Pub}, true)
+	defer vStop(ls.S, 5*time.Second)
+	sp := vStartStallProxy(ls.Addr)
+	defer sp.Close()
+	scale := vEnvInt("VERIF_SCALE", 25)
+	period := 18 * time.Second / time.Duration(scale)
+	bound := 40*time.Second/time.Duration(scale) + 3*time.Second
+	info := map[string]interface{}{"silent_after_ping_periods": after, "bound_ms": bound.Milliseconds(), "outcome": "recovered=true"}
+	c := vCase{Class: "recovery/silent-idle-session", Sig: fmt.Sprintf("silent-idle-session/%d", after), Info: info}
+	ctx, cancel := context.WithTimeout(context.Background(), 120*time.Second)
+	defer cancel()
+	cc, err := vDialLib(ctx, sp.Addr, ckey, skey.Pub, WithBlock())
+	if err != nil {
+		c.Fail = "client-dial-failed"
+		vEmit(c)
+		return
+	}
+	cc.RegisterService(vDesc(), &vImpl{})
+	time.Sleep(time.Duration(after) * period)
+	dials := sp.DialCount()
+	sp.Stall()
+	start := time.Now()
+	redialled := vWaitUntil(bound, func() bool { return sp.DialCount() > dials })
+	info["redialled_after_ms"] = time.Since(start).Milliseconds()
+	info["state"] = cc.GetState().String()
+	if !redialled {
+		c.Fail = "no-recovery-after-silent-idle-session"
+		info["outcome"] = fmt.Sprintf("the client has not dialled again %v after its idle session went silent (state %s)", bound, cc.GetState())
+	} else if ok, errs := vC06Usable(ls, cc, ckey, 10*time.Second); !ok {
+		c.Fail = "no-recovery-after-silent-idle-session"
+		info["errs"] = errs
+		info["outcome"] = "recovered=false"
+	}
+	sp.Close()
+	if !vClose(cc, 5*time.Second) && c.Fail == "" {
+		c.Fail = "close-hangs"
+	}
+	vEmit(c)
+}
+
 // vC06StalledSession: the session stalls while the client keeps calling (1 MiB requests, 300 ms
 // deadlines, write timeout 300 ms). Once its socket is full the client must give the session up
 // after the write timeout, dial again and be usable again.
